@@ -258,19 +258,21 @@ class Layout:
 
     def __init__(self, rng=None, mode="plain"):
         self.r, self.mode = rng, mode
+        # one line-ending convention per text: LF, CRLF or a lone CR (pest's NEWLINE accepts all three, also as the end of a `//` comment)
+        self.nl = rng.choice(["\n", "\n", "\r\n", "\r"]) if (rng and mode != "plain") else "\n"
 
     def ws(self):
         if self.mode == "plain":
             return " "
         r = self.r
-        return "".join(r.choice([" ", " ", "\t", "\n", "  ", "\r\n"]) for _ in range(1 + r.below(2)))
+        return "".join(r.choice([" ", " ", "\t", self.nl, "  ", self.nl]) for _ in range(1 + r.below(2)))
 
     def comment(self):
         r = self.r
         if r.chance(1, 2):
             body = r.choice(["", " c ", " struct x { int a; }; ", "*", " // ", "é ☃ ", " int x; "])
             return "/*" + body + "*/"
-        return "//" + r.choice(["", " c", " case 1: void;", "/* open", " é"]) + "\n"
+        return "//" + r.choice(["", " c", " case 1: void;", "/* open", " é"]) + self.nl
 
     def sep(self, need_ws=False, lead_ws=False):
         """between two tokens. need_ws: something must separate them. lead_ws: must start with whitespace."""
@@ -515,6 +517,24 @@ def out_of_subset(gen, rng):
     return items, tag
 
 
+def catalog_oos():
+    """compiled and exercised like the catalogue, but outside the supported subset: the model/code tie, the family, suffix, offset and
+    reference oracles apply; the hypotheses of the specification-level theorems are not demanded of them.  Returns [(tag, items)]."""
+    return [
+        # element types whose encoding is empty (an empty struct, `opaque nil[0]`): a counted array of them is a count word and nothing
+        # else, in the middle of a value and as the last thing in the buffer.  All bounded: an *unbounded* array of such elements lets a
+        # 4-byte input drive 2^32 loop iterations (finding K15), which would only slow the campaign down
+        ("oos:zero-wire-size", [
+            {"k": "struct", "name": "unit", "fields": []},
+            {"k": "typedef", "ty": "opaque", "name": "nil", "arr": ["fixed", "0"]},
+            {"k": "struct", "name": "zmsg", "fields": [{"ty": "unit", "name": "us", "arr": ["var", "6"], "opt": False}, {"ty": "int", "name": "mid", "arr": None, "opt": False},
+                                                       {"ty": "nil", "name": "ns", "arr": ["var", "5"], "opt": False}]},
+            {"k": "struct", "name": "zlast", "fields": [{"ty": "int", "name": "head", "arr": None, "opt": False}, {"ty": "unit", "name": "us", "arr": ["var", "9"], "opt": False}]},
+            {"k": "typedef", "ty": "unit", "name": "units", "arr": ["var", "7"]},
+            {"k": "typedef", "ty": "nil", "name": "nils", "arr": ["var", "4"]}]),
+    ]
+
+
 def names_catalog():
     """front-end only (these need not compile): declarations named with Rust reserved words (ordinary XDR identifiers; the emitters
     escape them with `_v`, the indexes must not), next to a declaration that already carries the escaped spelling; members named like
@@ -538,6 +558,15 @@ def names_catalog():
             {"k": "enum", "name": c, "members": [["M_" + c, "1"], ["N_" + c, "2"]]},
             {"k": "union", "name": d, "swty": c, "swvar": "sw", "arms": [{"labels": ["M_" + c], "body": {"ty": b, "name": "x", "arr": None}}, {"labels": ["N_" + c], "body": "void"}]},
             {"k": "struct", "name": b + "_v", "fields": [{"ty": d, "name": "u", "arr": None, "opt": False}, {"ty": b, "name": "s", "arr": None, "opt": True}]}]))
+    # numeric spellings: upper-case hex prefix and digits, leading zeros (decimal everywhere: Rust and `parse::<u32>` read `010` as ten)
+    out.append(("spellings:enum-and-const-values", [
+        {"k": "enum", "name": "hexes", "members": [["H1", "0X4"], ["H2", "0X7F"], ["H3", "0x0A"], ["H4", "0xaB"], ["H5", "0Xyz"], ["H6", "010"], ["H7", "00"], ["H8", "0x00000010"]]},
+        {"k": "const", "name": "K1", "val": "0X10"}, {"k": "const", "name": "K2", "val": "010"}, {"k": "const", "name": "K3", "val": "0x0A"},
+        {"k": "const", "name": "K4", "val": "0xFFFFFFFF"}, {"k": "const", "name": "K5", "val": "00"},
+        {"k": "struct", "name": "uses", "fields": [{"ty": "opaque", "name": "a", "arr": ["var", "010"], "opt": False}, {"ty": "opaque", "name": "b", "arr": ["fixed", "08"], "opt": False},
+                                                   {"ty": "string", "name": "c", "arr": ["var", "K2"], "opt": False}, {"ty": "int", "name": "d", "arr": ["fixed", "0010"], "opt": False}]},
+        {"k": "typedef", "ty": "opaque", "name": "t10", "arr": ["var", "010"]},
+        {"k": "union", "name": "lab", "swty": "int", "swvar": "d", "arms": [{"labels": ["010"], "body": {"ty": "int", "name": "x", "arr": None}}, {"labels": ["00", "K2"], "body": "void"}]}]))
     out.append(("names:member-like-declaration", [
         {"k": "struct", "name": "data", "fields": [{"ty": "unsigned int", "name": "hint", "arr": None, "opt": False}, {"ty": "opaque", "name": "data", "arr": ["var", ""], "opt": False}]},
         {"k": "struct", "name": "datas", "fields": [{"ty": "data", "name": "datas", "arr": ["var", ""], "opt": False}]},
@@ -657,6 +686,12 @@ def catalog():
                           {"k": "union", "name": "u6", "swty": "sint", "swvar": "disc", "arms": [
                               {"labels": ["RED"], "body": {"ty": "sel", "name": "a", "arr": None}}, {"labels": ["GREEN"], "body": "void"},
                               {"default": True, "labels": [], "body": {"ty": "uint", "name": "dflt", "arr": None}}]}])
+    # bounds written with leading zeros are decimal (`parse::<u32>`; `pub const TEN: u32 = 010;` is ten in Rust too)
+    spec("bounds:leading-zero", [{"k": "const", "name": "TEN", "val": "010"},
+                                 {"k": "struct", "name": "lz", "fields": [{"ty": "opaque", "name": "a", "arr": ["var", "010"], "opt": False}, {"ty": "string", "name": "s", "arr": ["var", "011"], "opt": False},
+                                                                          {"ty": "inner", "name": "xs", "arr": ["var", "0010"], "opt": False}, {"ty": "opaque", "name": "f", "arr": ["fixed", "010"], "opt": False},
+                                                                          {"ty": "opaque", "name": "c", "arr": ["var", "TEN"], "opt": False}, {"ty": "int", "name": "tail", "arr": None, "opt": False}]},
+                                 {"k": "typedef", "ty": "opaque", "name": "t10", "arr": ["var", "010"]}, {"k": "typedef", "ty": "inner", "name": "v10", "arr": ["var", "010"]}])
     spec("recursive", [{"k": "struct", "name": "node", "fields": [{"ty": "unsigned int", "name": "v", "arr": None, "opt": False}, {"ty": "node", "name": "next", "arr": None, "opt": True}]},
                        {"k": "struct", "name": "tree", "fields": [{"ty": "inner", "name": "label", "arr": None, "opt": False}, {"ty": "tree", "name": "kids", "arr": ["var", "K"], "opt": False}]},
                        {"k": "union", "name": "expr", "swty": "int", "swvar": "kind", "arms": [{"labels": ["0"], "body": {"ty": "int", "name": "lit", "arr": None}},
